@@ -4,7 +4,7 @@ good); Props/C16.lean proves that a field read across the cut never exceeds the 
 their defaults, and that a count-prefixed array read from a prefix allocates no more than the whole file does.
 D: (a) correspondence: the model's reads against NiIStream on random byte strings, cut points and field widths; (b) truncation
    sweep under ASan/UBSan: prefixes of every sample file (every byte of the first 400 and last 64, strided in between;
-   thorough: every byte of files below 64 KB) and of generated instances of every block type; each prefix is loaded, the result
+   thorough: every byte of files below 16 KB) and of generated instances of every block type; each prefix is loaded, the result
    queried (battery), saved, copied and destroyed."""
 import json
 import os
@@ -29,7 +29,7 @@ def run(ctx):
         for f in filecamp.sample_files():
             size = os.path.getsize(f)
             if ctx.tier == "thorough":
-                spec = "all" if size < 65536 else f"stride:{max(1, size // 20000)}"
+                spec = "all" if size < 16384 else f"stride:{max(1, size // 6000)}"
             else:
                 spec = f"stride:{max(1, size // 400) + rng.randrange(0, 3)}"
             lines.append(f"c16.run load:{f} {spec}")
@@ -44,7 +44,7 @@ def run(ctx):
                 lines.append(f"c16.run synth:{t}:{v}:{rng.randrange(1, 10**6)}:2:{rng.choice([3, 9])} {spec}")
                 labels.append(f"{t}/{v}")
     out = C.run_lines_parallel(ctx.harness, lines, timeout=20000)
-    bad, skipped, points, nontrivial = [], 0, 0, 0
+    bad, skipped, points, nontrivial, reruns = [], 0, 0, 0, 0
     for line, label, o in zip(lines, labels, out):
         if o.startswith(("unloadable-synth", "unusable-source")):
             skipped += 1
@@ -56,9 +56,17 @@ def run(ctx):
         points += int(kv["n"])
         nontrivial += 1
         if kv["bad"] != "-":
+            # findings are deterministic: the failing cut points are run once more on their own before they are believed
+            src = line.split(" ")[1]
+            cuts = ",".join(x.split(":")[0] for x in kv["bad"].split(";"))
+            again = C.run_lines(ctx.harness, [f"c16.run {src} {cuts}"], timeout=6000)[0]
+            kv2 = dict(f.split("=", 1) for f in again.split(" ") if "=" in f) if again.startswith("n=") else {"bad": kv["bad"]}
+            if kv2.get("bad", "-") == "-":
+                reruns += 1
+                continue
+            kv["bad"] = kv2["bad"]
             first = kv["bad"].split(";")[0]
             cut, what = first.split(":")
-            src = line.split(" ")[1]
             bad.append((label, f"c16.run {src} {cut}",
                         f"prefix of {cut} bytes (of {kv['size']}): {'hang' if what == 'hang' else 'memory error / UB / fault (' + what + ')'}; "
                         f"{len(kv['bad'].split(';'))} failing cut points in this sweep"))
@@ -84,8 +92,8 @@ def run(ctx):
     res.coverage.update(
         evaluations=points, distinct_nontrivial=nontrivial, traces_validated_against_impl=points,
         rule="prefixes of every sample file (first 400 and last 64 bytes densely, stride ≈ size/400 in between; thorough: every byte below "
-             "64 KB, stride size/20000 above) and of generated instances of every block type × 2 (quick) / 12 versions (quick: stride 3..7, "
+             "16 KB, about 6000 cut points above) and of generated instances of every block type × 2 (quick) / 12 versions (quick: stride 3..7, "
              "thorough: every byte); per prefix: Load, query battery, raw Save, copy, destruction in one sanitised process that reports the "
              "cut point before starting it",
-        files=len(lines), skipped=skipped, oracle_failures=len(bad), short_read_cases=len(rl), short_read_mismatches=len(corr),
+        files=len(lines), skipped=skipped, failures_not_reproduced_on_rerun=reruns, oracle_failures=len(bad), short_read_cases=len(rl), short_read_mismatches=len(corr),
         samples=[f"{l} -> {o[:120]}" for l, o in list(zip(lines, out))[:: max(1, len(lines) // 5)]][:5])
